@@ -152,6 +152,8 @@ def roll(new_note, last_note, next_note):
     duration = new_note.duration
     mordant_duration = frac(1, 4)
     nb_rolls = int(duration / mordant_duration)
+    if nb_rolls == 0:
+        return new_note
     melody = None
     for i in range(nb_rolls):
         if (i % 2) == 0:
@@ -160,7 +162,7 @@ def roll(new_note, last_note, next_note):
             melody += L.su1.set_duration(mordant_duration)
 
     if nb_rolls != (duration / mordant_duration):
-        melody += L.l(duration - nb_rolls * mordant_duration)
+        melody += L.l.set_duration(duration - nb_rolls * mordant_duration)
     new_note = melody
 
     return new_note
@@ -169,6 +171,8 @@ def roll_fast(new_note, last_note, next_note):
     duration = new_note.duration
     mordant_duration = frac(1, 6)
     nb_rolls = int(duration / mordant_duration)
+    if nb_rolls == 0:
+        return new_note
     melody = None
     for i in range(nb_rolls):
         if (i % 2) == 0:
@@ -177,7 +181,7 @@ def roll_fast(new_note, last_note, next_note):
             melody += L.su1.set_duration(mordant_duration)
 
     if nb_rolls != (duration / mordant_duration):
-        melody += L.l(duration - nb_rolls * mordant_duration)
+        melody += L.l.set_duration(duration - nb_rolls * mordant_duration)
     new_note = melody
     return new_note
 
